@@ -418,6 +418,9 @@ class DatasetProcessor:
         self.io_support = IOSupport(self.args)
         self.all_read_groups = set()
         self.alignment_stat_counter = EnumStats()
+        # values set by the model construction strategy; the effective flags are derived per experiment
+        self.strategy_require_monointronic_polya = self.args.require_monointronic_polya
+        self.strategy_require_monoexonic_polya = self.args.require_monoexonic_polya
 
         if args.genedb:
             logger.info("Loading gene database from " + self.args.genedb)
@@ -517,11 +520,11 @@ class DatasetProcessor:
             self.args.polya_requirement_strategy)
         self.args.require_monointronic_polya = set_polya_requirement_strategy(
             # do not require polyA tails for mono-intronic only if the data is reliable and polyA percentage is low
-            self.args.require_monointronic_polya or self.args.requires_polya_for_construction,
+            self.strategy_require_monointronic_polya or self.args.requires_polya_for_construction,
             self.args.polya_requirement_strategy)
         self.args.require_monoexonic_polya = set_polya_requirement_strategy(
             # do not require polyA tails for mono-intronic only if the data is reliable and polyA percentage is low
-            self.args.require_monoexonic_polya or self.args.requires_polya_for_construction,
+            self.strategy_require_monoexonic_polya or self.args.requires_polya_for_construction,
             self.args.polya_requirement_strategy)
 
         self.process_assigned_reads(sample, saves_file)
